@@ -273,11 +273,12 @@ func (r *run) judge(o judgeOpts) []finding {
 			}
 		}
 		if len(succ) > 1 {
+			// A double execution is attributed to an injected fault only where the fault explains
+			// it: the Storage.Set of a successful execution for this key failed.
 			ctx := o.doubleCtx
-			if r.fired {
-				ctx = "after-storage-" + r.plan.Kind + "-fault"
-				if r.plan.Kind == "lock" || r.plan.Kind == "unlock" || r.plan.Kind == "unlockerr" {
-					ctx = "after-" + r.plan.Kind + "-fault"
+			for _, ex := range succ {
+				if r.reqs[ex.Req].Faulted == "set" {
+					ctx = "after-storage-set-fault"
 				}
 			}
 			var who []string
